@@ -287,19 +287,24 @@ impl Scenario for C18 {
                 let lg = raw.max(3);
                 let mut sk = FiSk::new(kind, raw);
                 let cap = 3 * (1usize << lg) / 4;
+                // string items: 4-byte length + the bytes; the bound uses the longest item offered so far
+                let longest = std::cell::Cell::new(0usize);
                 let measure = |sk: &FiSk, st: &mut RunStats| -> Result<(), Violation> {
                     let n = sk.num_active();
                     check!(n <= sk.max_cap() && sk.max_cap() == cap, "C18.fi_active_items", "{n} active items, maximum_map_capacity {} (map size 2^{lg})", sk.max_cap());
                     let img = lib_call("FrequentItemsSketch::serialize", || sk.serialize())?;
                     st.lib_calls += 1;
                     st.observe_u64(img.len() as u64);
-                    let item_size = if kind == 2 { 4 + 24 } else { 8 };
-                    check!(img.len() <= 32 + cap * (8 + item_size), "C18.fi_image_size", "image {} bytes with capacity {cap}", img.len());
+                    let item_size = if kind == 2 { 4 + longest.get() } else { 8 };
+                    check!(img.len() <= 32 + cap * (8 + item_size), "C18.fi_image_size", "image {} bytes with capacity {cap} (longest item {} bytes)", img.len(), longest.get());
                     Ok(())
                 };
                 for a in acts {
                     let Act::Stream { kind: k, len, seed } = a else { continue };
                     for v in items(*k, (*len).min(1 << 18), *seed) {
+                        if kind == 2 {
+                            longest.set(longest.get().max(crate::scen::c07::item_str((v % 100_000) as u32).len()));
+                        }
                         lib_call("update", || sk.update((v % 100_000) as u32, 1 + v % 3))?;
                         offered += 1;
                         check!(sk.num_active() <= cap, "C18.fi_active_items", "{} active items exceed capacity {cap} after {offered} items", sk.num_active());
